@@ -492,6 +492,652 @@ Definition layout_of_state (s : st_NC_begins) : layout :=
   let n := NC_begins__P_ncp s in
   mklayout (NC__xsz n) (NC__begin_var n) (NC__begin_rec n) (NC__recsize n) (map NC_var__begin (arr_of s)).
 
+Definition exb_dims : list dim := [mkdim [116] 0; mkdim [120] 10; mkdim [121] 7; mkdim [122] 536870912].
+Definition exb_var (nm : Z) (ids : list Z) (t : Z) : var := mkvar [nm] ids [] t 0 false.
+
+
+(* ------------------------------------------------------------------------- *)
+(** * The whole function, new file (ncp->old == NULL): gen_begins_eq_new          *)
+(* ------------------------------------------------------------------------- *)
+(* everything of a variable but its begin *)
+Definition nb (v : c_NC_var) : c_ptr Z * Z * c_ptr Z * Z :=
+  (NC_var__shape v, NC_var__len v, NC_var__dsizes v, NC_var__xsz v).
+Definition isrec_nb (t : c_ptr Z * Z * c_ptr Z * Z) : bool :=
+  z2b (if negb (p_isnull (fst (fst (fst t)))) then b2z (p_get 0 (fst (fst (fst t))) 0 =? 0) else 0).
+Lemma cv_isrec_nb : forall v, cv_isrec v = isrec_nb (nb v).
+Proof. reflexivity. Qed.
+
+Lemma fix_pass_nb : forall fmt rest k ev fv r' ev' fv' i' ok,
+  fix_pass fmt rest k ev fv = (r', ev', fv', i', ok) -> map nb r' = map nb rest.
+Proof.
+  intros fmt rest. induction rest as [|v r IH]; intros k ev fv r' ev' fv' i' ok E.
+  - cbn in E. inversion E; reflexivity.
+  - cbn [fix_pass] in E. destruct (cv_isrec v).
+    + match type of E with context [fix_pass ?a ?b ?c ?d ?e] =>
+        destruct (fix_pass a b c d e) as [[[[r1 e1] f1] i1] o1] eqn:E1 end.
+      inversion E; subst. cbn [map]. f_equal. eapply IH; exact E1.
+    + destruct ((fmt =? 1) && (ev >? 2147483647)); [inversion E; reflexivity|]. cbv zeta in E.
+      match type of E with context [fix_pass ?a ?b ?c ?d ?e] =>
+        destruct (fix_pass a b c d e) as [[[[r1 e1] f1] i1] o1] eqn:E1 end.
+      inversion E; subst. cbn [map]. f_equal. eapply IH; exact E1.
+Qed.
+
+Lemma rec_pass_nb : forall fmt rest k ev rs lv r' ev' rs' l' i' ok,
+  rec_pass fmt rest k ev rs lv = (r', ev', rs', l', i', ok) ->
+  map nb r' = map nb rest /\ map fixed_begin r' = map fixed_begin rest.
+Proof.
+  intros fmt rest. induction rest as [|v r IH]; intros k ev rs lv r' ev' rs' l' i' ok E.
+  - cbn in E. inversion E; split; reflexivity.
+  - cbn [rec_pass] in E. destruct (cv_isrec v) eqn:Erec; cbn [negb] in E.
+    + destruct ((fmt =? 1) && (ev >? 2147483647)); [inversion E; split; reflexivity|].
+      match type of E with context [rec_pass ?a ?b ?c ?d ?e ?g] =>
+        destruct (rec_pass a b c d e g) as [[[[[r1 e1] s1] l1] i1] o1] eqn:E1 end.
+      inversion E; subst. apply IH in E1. destruct E1 as [H1 H2]. cbn [map].
+      split; [f_equal; exact H1|]. f_equal; [|exact H2].
+      unfold fixed_begin. rewrite cv_isrec_set_begin, Erec. reflexivity.
+    + match type of E with context [rec_pass ?a ?b ?c ?d ?e ?g] =>
+        destruct (rec_pass a b c d e g) as [[[[[r1 e1] s1] l1] i1] o1] eqn:E1 end.
+      inversion E; subst. apply IH in E1. destruct E1 as [H1 H2]. cbn [map].
+      split; f_equal; assumption.
+Qed.
+
+Lemma map_nb_props : forall l1 l2, map nb l1 = map nb l2 ->
+  Zlen l1 = Zlen l2 /\ lens4 l1 = lens4 l2 /\ (Forall cv_wf l2 -> Forall cv_wf l1) /\
+  (Forall (fun v => 0 <= NC_var__len v) l2 -> Forall (fun v => 0 <= NC_var__len v) l1) /\
+  map cv_isrec l1 = map cv_isrec l2.
+Proof.
+  induction l1 as [|a l1 IH]; intros [|b l2] H; try discriminate.
+  - repeat split; auto.
+  - cbn [map] in H. inversion H as [[Hs Hl Hd Hx Hr]]. destruct (IH l2 Hr) as (A & B & C & D & F).
+    rewrite !cs_Zlen_cons. unfold lens4 in *. cbn [map zsum]. rewrite Hl.
+    split; [lia|]. split; [lia|]. split; [|split].
+    + intros Hw. inversion Hw; subst. constructor; [|auto]. unfold cv_wf in *. rewrite Hs. assumption.
+    + intros Hw. inversion Hw; subst. constructor; [lia|auto].
+    + f_equal; [|exact F]. rewrite !cv_isrec_nb. unfold nb. rewrite Hs, Hl, Hd, Hx. reflexivity.
+Qed.
+
+(* end offset of a pass stays below the potential; first_var is the first fixed-size variable *)
+Lemma fix_pass_bounds : forall fmt rest k ev fv r' ev' fv' i' ok,
+  fix_pass fmt rest k ev fv = (r', ev', fv', i', ok) ->
+  0 <= ev -> Forall (fun v => 0 <= NC_var__len v) rest -> ev <= ev' <= ev + lens4 rest.
+Proof.
+  intros fmt rest. induction rest as [|v r IH]; intros k ev fv r' ev' fv' i' ok E Hev Hl.
+  - cbn in E. inversion E; subst. unfold lens4. cbn. lia.
+  - inversion Hl as [|? ? Hv Hr]; subst.
+    assert (Hl4 : 0 <= lens4 r).
+    { clear - Hr. unfold lens4. induction Hr as [|x l Hx Hl IHl]; cbn [map zsum]; lia. }
+    assert (Hb' : lens4 (v :: r) = NC_var__len v + 4 + lens4 r) by reflexivity.
+    cbn [fix_pass] in E. destruct (cv_isrec v).
+    + match type of E with context [fix_pass ?a ?b ?c ?d ?e] =>
+        destruct (fix_pass a b c d e) as [[[[r1 e1] f1] i1] o1] eqn:E1 end.
+      inversion E; subst. apply IH in E1; [lia | lia | exact Hr].
+    + destruct ((fmt =? 1) && (ev >? 2147483647)); [inversion E; subst; lia|]. cbv zeta in E.
+      match type of E with context [fix_pass ?a ?b ?c ?d ?e] =>
+        destruct (fix_pass a b c d e) as [[[[r1 e1] f1] i1] o1] eqn:E1 end.
+      inversion E; subst. pose proof (rndup_bounds ev 4 Hev ltac:(lia)).
+      apply IH in E1; [lia | lia | exact Hr].
+Qed.
+
+Lemma fix_pass_fv_some : forall fmt rest k ev j r' ev' fv' i' ok,
+  fix_pass fmt rest k ev (Some j) = (r', ev', fv', i', ok) -> fv' = Some j.
+Proof.
+  intros fmt rest. induction rest as [|v r IH]; intros k ev j r' ev' fv' i' ok E.
+  - cbn in E. inversion E; reflexivity.
+  - cbn [fix_pass] in E. destruct (cv_isrec v).
+    + match type of E with context [fix_pass ?a ?b ?c ?d ?e] =>
+        destruct (fix_pass a b c d e) as [[[[r1 e1] f1] i1] o1] eqn:E1 end.
+      inversion E; subst. eapply IH; exact E1.
+    + cbn [r_isnull] in E.
+      destruct ((fmt =? 1) && (ev >? 2147483647)); [inversion E; reflexivity|]. cbv zeta in E.
+      match type of E with context [fix_pass ?a ?b ?c ?d ?e] =>
+        destruct (fix_pass a b c d e) as [[[[r1 e1] f1] i1] o1] eqn:E1 end.
+      inversion E; subst. eapply IH; exact E1.
+Qed.
+
+Lemma fix_pass_fv : forall fmt rest k ev r' ev' fv' i',
+  fix_pass fmt rest k ev None = (r', ev', fv', i', true) ->
+  fv' = find_index (fun v => negb (cv_isrec v)) rest k.
+Proof.
+  intros fmt rest. induction rest as [|v r IH]; intros k ev r' ev' fv' i' E.
+  - cbn in E. inversion E; reflexivity.
+  - cbn [fix_pass find_index] in E |- *. destruct (cv_isrec v); cbn [negb].
+    + match type of E with context [fix_pass ?a ?b ?c ?d ?e] =>
+        destruct (fix_pass a b c d e) as [[[[r1 e1] f1] i1] o1] eqn:E1 end.
+      inversion E; subst. eapply IH; exact E1.
+    + destruct ((fmt =? 1) && (ev >? 2147483647)); [inversion E|]. cbv zeta in E. cbn [r_isnull] in E.
+      match type of E with context [fix_pass ?a ?b ?c ?d ?e] =>
+        destruct (fix_pass a b c d e) as [[[[r1 e1] f1] i1] o1] eqn:E1 end.
+      inversion E; subst. eapply fix_pass_fv_some; exact E1.
+Qed.
+
+Lemma rec_pass_bounds : forall fmt rest k ev rs lv r' ev' rs' l' i' ok,
+  rec_pass fmt rest k ev rs lv = (r', ev', rs', l', i', ok) ->
+  0 <= rs <= ev -> Forall (fun v => 0 <= NC_var__len v) rest -> 0 <= rs' <= ev'.
+Proof.
+  intros fmt rest. induction rest as [|v r IH]; intros k ev rs lv r' ev' rs' l' i' ok E Hrs Hl.
+  - cbn in E. inversion E; subst. lia.
+  - inversion Hl as [|? ? Hv Hr]; subst. cbn [rec_pass] in E. destruct (cv_isrec v); cbn [negb] in E.
+    + destruct ((fmt =? 1) && (ev >? 2147483647)); [inversion E; subst; lia|].
+      match type of E with context [rec_pass ?a ?b ?c ?d ?e ?g] =>
+        destruct (rec_pass a b c d e g) as [[[[[r1 e1] s1] l1] i1] o1] eqn:E1 end.
+      inversion E; subst. apply IH in E1; [lia | lia | exact Hr].
+    + match type of E with context [rec_pass ?a ?b ?c ?d ?e ?g] =>
+        destruct (rec_pass a b c d e g) as [[[[[r1 e1] s1] l1] i1] o1] eqn:E1 end.
+      inversion E; subst. apply IH in E1; [lia | lia | exact Hr].
+Qed.
+
+(* the last record variable *)
+Lemma last_opt_cons : forall A (a : A) l,
+  last_opt (a :: l) = match last_opt l with Some x => Some x | None => Some a end.
+Proof.
+  intros A a l. unfold last_opt. cbn [rev]. destruct (rev l) as [|x t]; reflexivity.
+Qed.
+
+Lemma fold_last_gen : forall A (p : A -> bool) l init,
+  fold_left (fun a x => if p x then Some x else a) l init =
+  match last_opt (filter p l) with Some x => Some x | None => init end.
+Proof.
+  intros A p l. induction l as [|a l IH]; intros init; [reflexivity|].
+  cbn [fold_left filter]. rewrite IH. destruct (p a).
+  - rewrite last_opt_cons. destruct (last_opt (filter p l)); reflexivity.
+  - reflexivity.
+Qed.
+
+Definition lastg (a : option c_NC_var) (x : c_NC_var) : option c_NC_var := if cv_isrec x then Some x else a.
+
+Definition linv (pre : list c_NC_var) (lv : c_ref) (A : option c_NC_var) : Prop :=
+  match lv with
+  | None => A = None
+  | Some j => 0 <= j < Zlen pre /\ A = Some (znth pre j c_NC_var_default)
+  end.
+
+Lemma znth_app_lt : forall A (l r : list A) j d, 0 <= j < Zlen l -> znth (l ++ r) j d = znth l j d.
+Proof.
+  induction l as [|a l IH]; intros r j d H; [rewrite cs_Zlen_nil in H; lia|].
+  rewrite cs_Zlen_cons in H. cbn [app znth]. destruct (j =? 0) eqn:E; [reflexivity|]. apply IH. lia.
+Qed.
+
+Lemma linv_app : forall pre x lv A, linv pre lv A -> linv (pre ++ [x]) lv A.
+Proof.
+  intros pre x [j|] A H; cbn [linv] in *; [|exact H]. destruct H as [Hj HA].
+  rewrite cs_Zlen_app, cs_Zlen_cons, cs_Zlen_nil. split; [lia|]. rewrite znth_app_lt by lia. exact HA.
+Qed.
+
+Lemma rec_pass_last : forall fmt rest pre ev rs lv A0 r' ev' rs' l' i',
+  rec_pass fmt rest (Zlen pre) ev rs lv = (r', ev', rs', l', i', true) ->
+  linv pre lv A0 -> linv (pre ++ r') l' (fold_left lastg r' A0).
+Proof.
+  intros fmt rest. induction rest as [|v r IH]; intros pre ev rs lv A0 r' ev' rs' l' i' E H.
+  - cbn in E. inversion E; subst. rewrite app_nil_r. exact H.
+  - cbn [rec_pass] in E. destruct (cv_isrec v) eqn:Erec; cbn [negb] in E.
+    + destruct ((fmt =? 1) && (ev >? 2147483647)); [inversion E|].
+      set (v' := set_NC_var__begin ev v) in *.
+      assert (Hk : Zlen pre + 1 = Zlen (pre ++ [v'])) by (rewrite cs_Zlen_app, cs_Zlen_cons, cs_Zlen_nil; lia).
+      rewrite Hk in E.
+      match type of E with context [rec_pass ?a ?b ?c ?d ?e ?g] =>
+        destruct (rec_pass a b c d e g) as [[[[[r1 e1] s1] l1] i1] o1] eqn:E1 end.
+      inversion E; subst.
+      assert (H1 : linv (pre ++ [v']) (Some (Zlen pre)) (Some v')).
+      { cbn [linv]. rewrite <- Hk. pose proof (cs_Zlen_nonneg _ pre). split; [lia|].
+        rewrite cs_znth_app_Zlen. reflexivity. }
+      pose proof (IH (pre ++ [v']) _ _ _ (Some v') _ _ _ _ _ E1 H1) as H2.
+      rewrite <- app_assoc in H2. cbn [app] in H2. cbn [fold_left].
+      replace (lastg A0 v') with (Some v')
+        by (unfold lastg, v'; rewrite cv_isrec_set_begin, Erec; reflexivity).
+      exact H2.
+    + assert (Hk : Zlen pre + 1 = Zlen (pre ++ [v])) by (rewrite cs_Zlen_app, cs_Zlen_cons, cs_Zlen_nil; lia).
+      rewrite Hk in E.
+      match type of E with context [rec_pass ?a ?b ?c ?d ?e ?g] =>
+        destruct (rec_pass a b c d e g) as [[[[[r1 e1] s1] l1] i1] o1] eqn:E1 end.
+      inversion E; subst.
+      pose proof (IH (pre ++ [v]) _ _ _ A0 _ _ _ _ _ E1 (linv_app pre v lv A0 H)) as H2.
+      rewrite <- app_assoc in H2. cbn [app] in H2. cbn [fold_left].
+      replace (lastg A0 v) with A0 by (unfold lastg; rewrite Erec; reflexivity).
+      exact H2.
+Qed.
+
+Lemma fold_last_nb : forall l1 l2 A1 A2, map nb l1 = map nb l2 -> option_map nb A1 = option_map nb A2 ->
+  option_map nb (fold_left lastg l1 A1) = option_map nb (fold_left lastg l2 A2).
+Proof.
+  induction l1 as [|a l1 IH]; intros [|b l2] A1 A2 H HA; try discriminate; [exact HA|].
+  cbn [map] in H. injection H as H1 H2 H3 H4 Hr.
+  assert (Hab : nb a = nb b) by (unfold nb; rewrite H1, H2, H3, H4; reflexivity).
+  cbn [fold_left]. apply IH; [exact Hr|].
+  unfold lastg. rewrite !cv_isrec_nb, Hab. destruct (isrec_nb (nb b)); [cbn [option_map]; rewrite Hab; reflexivity | exact HA].
+Qed.
+
+Lemma last_rec_len_fold : forall l A,
+  last_rec_len (option_map NC_var__len A) l = option_map NC_var__len (fold_left lastg l A).
+Proof.
+  induction l as [|a l IH]; intros A; [reflexivity|].
+  unfold last_rec_len in *. cbn [fold_left]. unfold lastg at 2.
+  destruct (cv_isrec a); [apply (IH (Some a)) | apply IH].
+Qed.
+
+Lemma cv_isrec_cv_of : forall dims v, cv_isrec (cv_of dims v) = is_recvar dims v.
+Proof.
+  intros dims v. unfold cv_isrec, cv_of, is_recvar. cbn [NC_var__shape].
+  destruct (var_shape dims v) as [|s0 r]; [reflexivity|].
+  cbn [c_shape_b p_isnull negb]. rewrite p_get_some. cbn [Z.add znth Z.eqb]. apply z2b_b2z.
+Qed.
+
+Lemma fold_last_cv_of : forall dims vars A,
+  fold_left lastg (map (cv_of dims) vars) (option_map (cv_of dims) A) =
+  option_map (cv_of dims) (fold_left (fun a x => if is_recvar dims x then Some x else a) vars A).
+Proof.
+  intros dims vars. induction vars as [|v r IH]; intros A; [reflexivity|].
+  cbn [map fold_left]. unfold lastg at 2. rewrite cv_isrec_cv_of.
+  destruct (is_recvar dims v); [apply (IH (Some v)) | apply IH].
+Qed.
+
+Lemma merge_fixed_rec : forall l, merge_opts (map fixed_begin l) (map rec_begin l) = map NC_var__begin l.
+Proof.
+  induction l as [|v l IH]; [reflexivity|]. cbn [map]. unfold fixed_begin at 1, rec_begin at 1.
+  destruct (cv_isrec v); cbn [merge_opts]; rewrite IH; reflexivity.
+Qed.
+
+Lemma find_index_range : forall A (p : A -> bool) l k j d,
+  find_index p l k = Some j -> k <= j < k + Zlen l /\ p (znth l (j - k) d) = true.
+Proof.
+  intros A p l. induction l as [|a l IH]; intros k j d H; [discriminate|].
+  cbn [find_index] in H. rewrite cs_Zlen_cons. pose proof (cs_Zlen_nonneg _ l).
+  destruct (p a) eqn:E.
+  - inversion H; subst. replace (j - j) with 0 by lia. cbn [znth Z.eqb]. split; [lia | exact E].
+  - apply (IH (k + 1) j d) in H. destruct H as [H1 H2]. split; [lia|].
+    cbn [znth]. destruct (j - k =? 0) eqn:E0; [lia|]. replace (j - k - 1) with (j - (k + 1)) by lia. exact H2.
+Qed.
+
+Lemma find_index_map : forall A B (f : A -> B) (p : B -> bool) l k,
+  find_index p (map f l) k = find_index (fun x => p (f x)) l k.
+Proof.
+  intros A B f p l. induction l as [|a l IH]; intros k; [reflexivity|].
+  cbn [map find_index]. destruct (p (f a)); [reflexivity | apply IH].
+Qed.
+
+Lemma znth_map_d : forall A B (f : A -> B) l j d d', 0 <= j < Zlen l -> znth (map f l) j d' = f (znth l j d).
+Proof.
+  intros A B f l. induction l as [|a l IH]; intros j d d' H; [rewrite cs_Zlen_nil in H; lia|].
+  rewrite cs_Zlen_cons in H. cbn [map znth]. destruct (j =? 0) eqn:E; [reflexivity|]. apply IH. lia.
+Qed.
+
+Lemma map_nb_pair_of : forall l1 l2, map nb l1 = map nb l2 -> map pair_of l1 = map pair_of l2.
+Proof.
+  intros l1 l2 H.
+  assert (E : forall l, map pair_of l = map (fun t => (isrec_nb t, snd (fst (fst t)))) (map nb l)).
+  { intros l. rewrite map_map. apply map_ext. intros v. reflexivity. }
+  rewrite !E, H. reflexivity.
+Qed.
+
+Lemma znth_In : forall A (l : list A) j d, 0 <= j < Zlen l -> In (znth l j d) l.
+Proof.
+  induction l as [|a l IH]; intros j d H; [rewrite cs_Zlen_nil in H; lia|].
+  rewrite cs_Zlen_cons in H. cbn [znth]. destruct (j =? 0) eqn:E; [left; reflexivity|]. right. apply IH. lia.
+Qed.
+
+Definition c_view_nc2 (h : hdr) (hm vm ha ra pbr flags sm np : Z) : c_NC :=
+  {| NC__begin_rec := pbr; NC__begin_var := 0; NC__flags := flags; NC__format := h_format h;
+     NC__h_align := ha; NC__h_minfree := hm; NC__nprocs := np; NC__numrecs := h_numrecs h; NC__old := None;
+     NC__r_align := ra; NC__recsize := 0; NC__safe_mode := sm; NC__v_minfree := vm;
+     NC__vars := {| NC_vararray__ndefined := Zlen (h_vars h);
+                    NC_vararray__value := match h_vars h with [] => None
+                                          | _ => Some (map (cv_of (h_dims h)) (h_vars h), 0) end |};
+     NC__xsz := 0 |}.
+
+Definition begins_guards (h : hdr) (hm vm ha ra pbr : Z) : Prop :=
+  0 <= hdr_len h /\ 0 <= hm /\ 1 <= ha /\ 0 <= vm /\ 0 <= ra /\ 0 <= pbr /\
+  Zlen (h_vars h) <= 2147483647 /\
+  Forall (fun v => 0 <= var_len (h_dims h) v /\
+                   in_i64 (var_nelems_per_rec (var_shape (h_dims h) v) * xlen_type (v_type v)) = true) (h_vars h) /\
+  hdr_len h + hm + ha + pbr + vm + 4 + ra +
+    2 * zsum (map (fun v => var_len (h_dims h) v + 4) (h_vars h)) <= MAXOFF.
+
+Lemma rndq : forall x a, 0 <= x -> 1 <= a -> Z.quot (x + a - 1) a * a = rndup x a.
+Proof.
+  intros x a Hx Ha. unfold rndup. destruct (a =? 0) eqn:E; [lia|]. rewrite quot_is_div by lia. reflexivity.
+Qed.
+
+Theorem gen_begins_eq_new : forall h hm vm ha ra pbr flags sm np,
+  h_vars h <> [] ->
+  (z2b sm && (np >? 1)) = false -> begins_guards h hm vm ha ra pbr ->
+  exists rc s', NC_begins_c (c_view_nc2 h hm vm ha ra pbr flags sm np) (hdr_len h) = FValS rc s' /\
+    match begins h hm vm ha ra None pbr with
+    | None => rc = NC_EVARSIZE
+    | Some lay => rc = NC_NOERR /\ layout_of_state s' = lay /\
+                  NC__numrecs (NC_begins__P_ncp s') = (if z2b (Z.land flags 32768) then 0 else h_numrecs h)
+    end.
+Proof.
+  intros h hm vm ha ra pbr flags sm np Hne Hsm (Hx & Hhm & Hha & Hvm & Hra & Hpbr & Hn & Hvars & Hbound).
+  destruct (h_vars h) as [|v0 vr] eqn:Ev; [exfalso; apply Hne; reflexivity|]. clear Hne.
+  set (dims := h_dims h) in *. set (vars := v0 :: vr) in *. set (arr := map (cv_of dims) vars).
+  set (xsz := hdr_len h) in *.
+  assert (Hlens : lens4 arr = zsum (map (fun v => var_len dims v + 4) vars)).
+  { unfold lens4, arr. rewrite map_map. reflexivity. }
+  assert (HZarr : Zlen arr = Zlen vars) by (unfold arr; apply cs_Zlen_map).
+  assert (Hwf : Forall cv_wf arr).
+  { unfold arr. rewrite Forall_map. apply Forall_forall. intros v _. unfold cv_wf, cv_of. cbn [NC_var__shape].
+    destruct (var_shape dims v) as [|s0 r]; [reflexivity|]. cbn [c_shape_b p_isnull negb]. apply p_ok_cons0. }
+  assert (Hlen : Forall (fun v => 0 <= NC_var__len v) arr).
+  { unfold arr. rewrite Forall_map. eapply Forall_impl; [|exact Hvars]. intros v [H1 _]. exact H1. }
+  assert (Hl4 : 0 <= lens4 arr).
+  { clear - Hlen. unfold lens4. induction Hlen as [|x l Hx Hl IHl]; cbn [map zsum]; lia. }
+  assert (Hnpos : 0 < Zlen vars).
+  { unfold vars. rewrite cs_Zlen_cons. pose proof (cs_Zlen_nonneg _ vr). lia. }
+  unfold MAXOFF in Hbound. rewrite <- Hlens in Hbound.
+  unfold NC_begins_c, NC_begins_body, st_NC_begins_init, c_view_nc2.
+  rewrite !Ev. cbn [c_bind]. gb_st. gb_nc. fold dims vars arr. rewrite Hsm. cbn [c_bind]. gb_st. gb_nc.
+  replace (Zlen vars >? 0) with true by lia.
+  set (bv0 := rndup (xsz + hm) ha).
+  pose proof (rndup_bounds (xsz + hm) ha ltac:(lia) Hha) as Hbv0. fold bv0 in Hbv0.
+  rewrite rndq by lia. fold bv0.
+  assert (C1 : in_i64 (xsz + hm) && in_i64 (xsz + hm + ha) && in_i64 (xsz + hm + ha - 1) &&
+               div_ok i64_min (xsz + hm + ha - 1) ha && in_i64 bv0 = true).
+  { rewrite div_ok_pos by lia. unfold in_i64. lia. }
+  rewrite C1. cbn [c_chk c_bind]. gb_st. gb_nc. cbn [o_ok negb c_bind]. gb_st. gb_nc.
+  change (match vars with [] => None | _ :: _ => Some (arr, 0) end) with (Some (arr, 0)).
+  (* loop 1 *)
+  set (n1 := {| NC__begin_rec := pbr; NC__begin_var := bv0; NC__flags := flags; NC__format := h_format h;
+                NC__h_align := ha; NC__h_minfree := hm; NC__nprocs := np; NC__numrecs := h_numrecs h;
+                NC__old := None; NC__r_align := ra; NC__recsize := 0; NC__safe_mode := sm; NC__v_minfree := vm;
+                NC__vars := {| NC_vararray__ndefined := Zlen vars; NC_vararray__value := Some (arr, 0) |};
+                NC__xsz := xsz |}).
+  assert (Hnd1 : NC_vararray__ndefined (NC__vars n1) = Zlen ([] ++ arr)) by (cbn [app]; rewrite HZarr; reflexivity).
+  assert (Hn1 : Zlen ([] ++ arr) <= 2147483647) by (cbn [app]; lia).
+  assert (Hev1 : 0 <= bv0) by lia.
+  assert (Hb1 : bv0 + lens4 arr <= MAXOFF) by (unfold MAXOFF; lia).
+  match goal with |- context [c_loop ?fu ?a ?b ?c ?d ?st] =>
+    replace (c_loop fu a b c d st)
+      with (c_loop (NC_begins_loop1_fuel n1 xsz (mkS (with_vals n1 ([] ++ arr)) bv0 None (Zlen (@nil c_NC_var)) 0 None))
+                   (NC_begins_loop1_cdef n1 xsz) (NC_begins_loop1_cond n1 xsz)
+                   (NC_begins_loop1_body n1 xsz) (NC_begins_loop1_inc n1 xsz)
+                   (mkS (with_vals n1 ([] ++ arr)) bv0 None (Zlen (@nil c_NC_var)) 0 None)) by reflexivity end.
+  assert (Hnd1' : NC_vararray__ndefined (NC__vars n1) = Zlen arr) by (rewrite HZarr; reflexivity).
+  assert (Hf1 : (Datatypes.length arr <
+                 NC_begins_loop1_fuel n1 xsz (mkS (with_vals n1 ([] ++ arr)) bv0 None (Zlen (@nil c_NC_var)) 0 None))%nat).
+  { apply (lens4_nonneg_fuel arr n1 xsz _ Hnd1'); [reflexivity | exact Hnd1']. }
+  rewrite (gb_loop1 n1 xsz eq_refl arr [] bv0 None None _ Hnd1 Hn1 Hwf Hlen Hev1 Hb1 Hf1).
+  pose proof (fix_pass_begins_fixed (h_format h) arr 0 bv0 None []) as HP1.
+  change (NC__format n1) with (h_format h). change (Zlen (@nil c_NC_var)) with 0.
+  destruct (fix_pass (h_format h) arr 0 bv0 None) as [[[[a1 ef] fv1] i1] ok1] eqn:Efp.
+  cbv beta iota zeta in HP1. cbn [rev app] in HP1. cbn [app].
+  (* the model side, first part *)
+  assert (Hvs : map (fun v => (is_recvar dims v, var_len dims v)) vars = map pair_of arr).
+  { unfold arr. rewrite map_map. apply map_ext. intros v. unfold pair_of. rewrite cv_isrec_cv_of. reflexivity. }
+  unfold begins. rewrite Ev. fold dims xsz. cbv zeta. fold vars. rewrite Hvs.
+  change (match vars with [] => xsz | _ :: _ => rndup (xsz + hm) ha end) with bv0.
+  cbn [map filter]. rewrite HP1.
+  destruct ok1.
+  2:{ exists (-62), (mkS (with_vals n1 a1) ef fv1 i1 0 None). split; reflexivity. }
+  cbn [c_bind]. unfold mkS, with_vals. subst n1. gb_st. gb_nc.
+  (* facts about the first pass *)
+  pose proof (fix_pass_bounds _ _ _ _ _ _ _ _ _ _ Efp Hev1 Hlen) as Hef.
+  destruct (map_nb_props a1 arr (fix_pass_nb _ _ _ _ _ _ _ _ _ _ Efp)) as (HZ1 & HL1 & Hwf1 & Hlen1 & Hrec1).
+  specialize (Hwf1 Hwf). specialize (Hlen1 Hlen).
+  pose proof (fix_pass_fv _ _ _ _ _ _ _ _ Efp) as Hfv.
+  (* begin_rec *)
+  set (br0 := if pbr <? ef + vm then ef + vm else pbr).
+  set (br1 := rndup br0 4).
+  set (br2 := if ra >? 1 then rndup br1 ra else br1).
+  assert (Hbr0 : 0 <= br0 <= pbr + ef + vm) by (unfold br0; destruct (pbr <? ef + vm); lia).
+  pose proof (rndup_bounds br0 4 ltac:(lia) ltac:(lia)) as Hbr1. fold br1 in Hbr1.
+  assert (Hbr2 : br1 <= br2 <= br1 + ra).
+  { unfold br2. destruct (ra >? 1) eqn:Era; [|lia]. pose proof (rndup_bounds br1 ra ltac:(lia) ltac:(lia)). lia. }
+  assert (C2 : in_i64 (ef + vm) = true) by (apply in_i64_iff; lia).
+  rewrite !C2. cbn [c_chk].
+  match goal with |- context [c_bind (if pbr <? ef + vm then ?A else ?B) ?K] =>
+    assert (Hs1 : c_bind (if pbr <? ef + vm then A else B) K =
+                  K (mkS {| NC__begin_rec := br0; NC__begin_var := bv0; NC__flags := flags; NC__format := h_format h;
+                            NC__h_align := ha; NC__h_minfree := hm; NC__nprocs := np; NC__numrecs := h_numrecs h;
+                            NC__old := None; NC__r_align := ra; NC__recsize := 0; NC__safe_mode := sm; NC__v_minfree := vm;
+                            NC__vars := {| NC_vararray__ndefined := Zlen vars; NC_vararray__value := Some (a1, 0) |};
+                            NC__xsz := xsz |} ef fv1 i1 0 None)) end.
+  { unfold br0, mkS. destruct (pbr <? ef + vm); reflexivity. }
+  rewrite Hs1; clear Hs1. unfold mkS. gb_st. gb_nc.
+  rewrite rnd4_quot by lia. fold br1.
+  assert (C3 : in_i64 (br0 + 4) && in_i64 (br0 + 4 - 1) && div_ok i64_min (br0 + 4 - 1) 4 && in_i64 br1 = true).
+  { rewrite div_ok_pos by lia. unfold in_i64. lia. }
+  rewrite C3. cbn [c_chk c_bind]. gb_st. gb_nc.
+  match goal with |- context [c_bind (if ra >? 1 then ?A else ?B) ?K] =>
+    assert (Hs2 : c_bind (if ra >? 1 then A else B) K =
+                  K (mkS {| NC__begin_rec := br2; NC__begin_var := bv0; NC__flags := flags; NC__format := h_format h;
+                            NC__h_align := ha; NC__h_minfree := hm; NC__nprocs := np; NC__numrecs := h_numrecs h;
+                            NC__old := None; NC__r_align := ra; NC__recsize := 0; NC__safe_mode := sm; NC__v_minfree := vm;
+                            NC__vars := {| NC_vararray__ndefined := Zlen vars; NC_vararray__value := Some (a1, 0) |};
+                            NC__xsz := xsz |} ef fv1 i1 0 None)) end.
+  { unfold br2, mkS. destruct (ra >? 1) eqn:Era; [|reflexivity].
+    rewrite rndq by lia.
+    pose proof (rndup_bounds br1 ra ltac:(lia) ltac:(lia)) as Hr.
+    assert (C4 : in_i64 (br1 + ra) && in_i64 (br1 + ra - 1) && div_ok i64_min (br1 + ra - 1) ra &&
+                 in_i64 (rndup br1 ra) = true).
+    { rewrite div_ok_pos by lia. unfold in_i64. lia. }
+    rewrite C4. reflexivity. }
+  rewrite Hs2; clear Hs2. unfold mkS. gb_st. gb_nc. cbn [o_ok negb c_bind]. gb_st. gb_nc.
+  set (bvar := match fv1 with Some j => NC_var__begin (znth a1 j c_NC_var_default) | None => br2 end).
+  set (n2 := {| NC__begin_rec := br2; NC__begin_var := bvar; NC__flags := flags; NC__format := h_format h;
+                NC__h_align := ha; NC__h_minfree := hm; NC__nprocs := np; NC__numrecs := h_numrecs h;
+                NC__old := None; NC__r_align := ra; NC__recsize := 0; NC__safe_mode := sm; NC__v_minfree := vm;
+                NC__vars := {| NC_vararray__ndefined := Zlen vars; NC_vararray__value := Some (a1, 0) |};
+                NC__xsz := xsz |}).
+  assert (Hfvr : forall j, fv1 = Some j -> 0 <= j < Zlen a1 /\ cv_isrec (znth arr j c_NC_var_default) = false).
+  { intros j Hj. rewrite Hj in Hfv. symmetry in Hfv.
+    apply (find_index_range _ _ _ _ _ c_NC_var_default) in Hfv. destruct Hfv as [H1 H2].
+    rewrite Z.sub_0_r in H2. split; [lia|]. destruct (cv_isrec (znth arr j c_NC_var_default)); [discriminate | reflexivity]. }
+  match goal with |- context [c_bind (if negb (r_isnull fv1) then ?A else ?B) ?K] =>
+    assert (Hs3 : c_bind (if negb (r_isnull fv1) then A else B) K = K (mkS n2 ef fv1 i1 0 None)) end.
+  { unfold bvar, n2, mkS. destruct fv1 as [j|]; cbn [r_isnull negb r_ok r_get]; [|reflexivity].
+    destruct (Hfvr j eq_refl) as [Hj _].
+    rewrite p_ok_some by lia. rewrite p_get_some, Z.add_0_l. reflexivity. }
+  rewrite Hs3; clear Hs3. unfold mkS. gb_st. subst n2. gb_nc.
+  (* loop 3 *)
+  set (n2 := {| NC__begin_rec := br2; NC__begin_var := bvar; NC__flags := flags; NC__format := h_format h;
+                NC__h_align := ha; NC__h_minfree := hm; NC__nprocs := np; NC__numrecs := h_numrecs h;
+                NC__old := None; NC__r_align := ra; NC__recsize := 0; NC__safe_mode := sm; NC__v_minfree := vm;
+                NC__vars := {| NC_vararray__ndefined := Zlen vars; NC_vararray__value := Some (a1, 0) |};
+                NC__xsz := xsz |}).
+  assert (Hnd2 : NC_vararray__ndefined (NC__vars n2) = Zlen ([] ++ a1)) by (cbn [app]; rewrite HZ1, HZarr; reflexivity).
+  assert (Hn2 : Zlen ([] ++ a1) <= 2147483647) by (cbn [app]; lia).
+  assert (Hev2 : 0 <= br2) by lia.
+  assert (Hb2 : br2 + lens4 a1 <= MAXOFF) by (unfold MAXOFF; lia).
+  assert (Hrs2 : 0 <= 0 <= br2) by lia.
+  assert (Hnd2' : NC_vararray__ndefined (NC__vars n2) = Zlen a1) by (rewrite HZ1, HZarr; reflexivity).
+  assert (Hf2 : (Datatypes.length a1 <
+                 NC_begins_loop3_fuel n2 xsz (mkS (with_vals_rs n2 ([] ++ a1) 0) br2 fv1 (Zlen (@nil c_NC_var)) 0 None))%nat).
+  { apply (lens4_nonneg_fuel a1 n2 xsz _ Hnd2'); [reflexivity | exact Hnd2']. }
+  match goal with |- context [c_loop ?fu ?a ?b ?c ?d ?st] =>
+    replace (c_loop fu a b c d st)
+      with (c_loop (NC_begins_loop3_fuel n2 xsz (mkS (with_vals_rs n2 ([] ++ a1) 0) br2 fv1 (Zlen (@nil c_NC_var)) 0 None))
+                   (NC_begins_loop3_cdef n2 xsz) (NC_begins_loop3_cond n2 xsz)
+                   (NC_begins_loop3_body n2 xsz) (NC_begins_loop3_inc n2 xsz)
+                   (mkS (with_vals_rs n2 ([] ++ a1) 0) br2 fv1 (Zlen (@nil c_NC_var)) 0 None)) by reflexivity end.
+  rewrite (gb_loop3 n2 xsz eq_refl a1 [] br2 0 fv1 None _ Hnd2 Hn2 Hwf1 Hlen1 Hev2 Hb2 Hrs2 Hf2).
+  pose proof (rec_pass_begins_rec (h_format h) a1 0 br2 0 None None []) as HP2.
+  change (NC__format n2) with (h_format h). change (Zlen (@nil c_NC_var)) with 0.
+  destruct (rec_pass (h_format h) a1 0 br2 0 None) as [[[[[a2 er] rs] l2] i3] ok2] eqn:Erp.
+  cbv beta iota zeta in HP2. cbn [rev app] in HP2. cbn [app].
+  destruct (rec_pass_nb _ _ _ _ _ _ _ _ _ _ _ _ Erp) as [Hnb2 Hfb2].
+  assert (Hnb1 : map nb a1 = map nb arr) by (exact (fix_pass_nb _ _ _ _ _ _ _ _ _ _ Efp)).
+  rewrite <- (map_nb_pair_of a1 arr Hnb1). rewrite HP2.
+  destruct ok2.
+  2:{ exists (-62), (mkS (with_vals_rs n2 a2 rs) er fv1 i3 0 l2). split; reflexivity. }
+  cbn [c_bind]. unfold mkS, with_vals_rs, with_vals. subst n2. gb_st. gb_nc. unfold set_NC__recsize. gb_nc.
+  destruct (map_nb_props a2 a1 Hnb2) as (HZ2 & _ & _ & _ & Hrec2).
+  pose proof (rec_pass_last (h_format h) a1 [] br2 0 None None a2 er rs l2 i3 Erp eq_refl) as Hlast.
+  cbn [app] in Hlast. set (F2 := fold_left lastg a2 None) in *.
+  (* the model's view of the last record variable *)
+  assert (HF : option_map nb F2 =
+               option_map nb (option_map (cv_of dims) (last_opt (filter (fun v => is_recvar dims v) vars)))).
+  { unfold F2. rewrite (fold_last_nb a2 arr None None); [|rewrite Hnb2; exact Hnb1 | reflexivity].
+    unfold arr. pose proof (fold_last_cv_of dims vars None) as Hc. cbn [option_map] in Hc. rewrite Hc.
+    rewrite fold_last_gen.
+    destruct (last_opt (filter (fun v => is_recvar dims v) vars)); reflexivity. }
+  pose proof (last_rec_len_fold a2 None) as Hll. cbn [option_map] in Hll. fold F2 in Hll. rewrite Hll. clear Hll.
+  assert (Hall : Forall (fun t : c_ptr Z * Z * c_ptr Z * Z =>
+                           p_ok (snd (fst t)) 0 = true /\ in_i64 (p_get 0 (snd (fst t)) 0 * snd t) = true) (map nb a2)).
+  { rewrite Hnb2, Hnb1. unfold arr. rewrite map_map, Forall_map. eapply Forall_impl; [|exact Hvars].
+    intros v [_ Hv]. unfold nb, cv_of. cbn [fst snd NC_var__dsizes NC_var__xsz]. split; [apply p_ok_cons0 | exact Hv]. }
+  set (rsf := match F2 with
+              | Some lv2 => if rs =? NC_var__len lv2 then p_get 0 (NC_var__dsizes lv2) 0 * NC_var__xsz lv2 else rs
+              | None => rs end).
+  set (nf := fun nr : Z =>
+               {| NC__begin_rec := br2; NC__begin_var := bvar; NC__flags := flags; NC__format := h_format h;
+                  NC__h_align := ha; NC__h_minfree := hm; NC__nprocs := np; NC__numrecs := nr;
+                  NC__old := None; NC__r_align := ra; NC__recsize := rsf; NC__safe_mode := sm; NC__v_minfree := vm;
+                  NC__vars := {| NC_vararray__ndefined := Zlen vars; NC_vararray__value := Some (a2, 0) |};
+                  NC__xsz := xsz |}).
+  match goal with |- context [c_bind (if negb (r_isnull l2) then ?A else ?B) ?K] =>
+    assert (Hs4 : c_bind (if negb (r_isnull l2) then A else B) K = K (mkS (nf (h_numrecs h)) er fv1 i3 0 l2)) end.
+  { unfold nf, rsf, mkS. destruct l2 as [j|]; cbn [linv] in Hlast.
+    - destruct Hlast as [Hj HF2]. rewrite HF2. cbn [r_isnull negb r_ok r_get].
+      rewrite p_ok_some by lia. rewrite p_get_some, Z.add_0_l. cbn [c_chk andb].
+      set (lv2 := znth a2 j c_NC_var_default).
+      assert (Hin : In (nb lv2) (map nb a2)) by (apply in_map; apply znth_In; lia).
+      rewrite Forall_forall in Hall. destruct (Hall _ Hin) as [Hd1 Hd2]. cbn [nb fst snd] in Hd1, Hd2.
+      destruct (rs =? NC_var__len lv2); [|reflexivity].
+      rewrite Hd1, Hd2. reflexivity.
+    - rewrite Hlast. reflexivity. }
+  rewrite Hs4; clear Hs4.
+  exists 0, (mkS (nf (if z2b (Z.land flags 32768) then 0 else h_numrecs h)) er fv1 i3 0 l2).
+  split.
+  { unfold mkS, nf. gb_st. gb_nc. destruct (z2b (Z.land flags 32768)); reflexivity. }
+  split; [reflexivity|]. split; [|reflexivity].
+  (* the layout *)
+  unfold layout_of_state, arr_of, mkS, nf. gb_st. gb_nc.
+  assert (Hbl : merge_opts (map fixed_begin a1) (map rec_begin a2) = map NC_var__begin a2)
+    by (rewrite <- Hfb2; apply merge_fixed_rec).
+  rewrite Hbl.
+  assert (Hfi : find_index (fun p2 : bool * Z => negb (fst p2)) (map pair_of a1) 0 = fv1).
+  { rewrite (map_nb_pair_of a1 arr Hnb1), find_index_map. symmetry. exact Hfv. }
+  rewrite Hfi.
+  f_equal.
+  - (* begin_var *)
+    unfold bvar. destruct fv1 as [j|]; [|reflexivity].
+    destruct (Hfvr j eq_refl) as [Hj Hfx].
+    rewrite (znth_map_d _ _ NC_var__begin a2 j c_NC_var_default 0) by lia.
+    assert (Hi1 : cv_isrec (znth a1 j c_NC_var_default) = false).
+    { pose proof (f_equal (fun l => znth l j false) Hrec1) as E. cbv beta in E.
+      rewrite (znth_map_d _ _ cv_isrec a1 j c_NC_var_default false) in E by lia.
+      rewrite (znth_map_d _ _ cv_isrec arr j c_NC_var_default false) in E by lia. rewrite E. exact Hfx. }
+    assert (Hi2 : cv_isrec (znth a2 j c_NC_var_default) = false).
+    { pose proof (f_equal (fun l => znth l j false) Hrec2) as E. cbv beta in E.
+      rewrite (znth_map_d _ _ cv_isrec a2 j c_NC_var_default false) in E by lia.
+      rewrite (znth_map_d _ _ cv_isrec a1 j c_NC_var_default false) in E by lia. rewrite E. exact Hi1. }
+    pose proof (f_equal (fun l => znth l j None) Hfb2) as E. cbv beta in E.
+    rewrite (znth_map_d _ _ fixed_begin a2 j c_NC_var_default None) in E by lia.
+    rewrite (znth_map_d _ _ fixed_begin a1 j c_NC_var_default None) in E by lia.
+    unfold fixed_begin in E. rewrite Hi1, Hi2 in E. inversion E. reflexivity.
+  - (* recsize *)
+    unfold rsf.
+    destruct F2 as [lv2|]; destruct (last_opt (filter (fun v => is_recvar dims v) vars)) as [lv|];
+      cbn [option_map] in HF |- *; try discriminate; try reflexivity.
+    injection HF as H1 H2 H3 H4.
+    destruct (rs =? NC_var__len lv2); [|reflexivity].
+    rewrite H3, H4. unfold cv_of. cbn [NC_var__dsizes NC_var__xsz]. rewrite p_get_some. reflexivity.
+Qed.
+
+(* no variable at all: both loops are empty, vars.value is NULL and never read *)
+Theorem gen_begins_eq_new_novars : forall h hm vm ha ra pbr flags sm np,
+  h_vars h = [] ->
+  (z2b sm && (np >? 1)) = false -> begins_guards h hm vm ha ra pbr ->
+  exists rc s', NC_begins_c (c_view_nc2 h hm vm ha ra pbr flags sm np) (hdr_len h) = FValS rc s' /\
+    match begins h hm vm ha ra None pbr with
+    | None => rc = NC_EVARSIZE
+    | Some lay => rc = NC_NOERR /\ layout_of_state s' = lay /\
+                  NC__numrecs (NC_begins__P_ncp s') = (if z2b (Z.land flags 32768) then 0 else h_numrecs h)
+    end.
+Proof.
+  intros h hm vm ha ra pbr flags sm np Ev Hsm (Hx & Hhm & Hha & Hvm & Hra & Hpbr & Hn & Hvars & Hbound).
+  set (xsz := hdr_len h) in *. rewrite Ev in Hbound. cbn [map zsum] in Hbound. unfold MAXOFF in Hbound.
+  set (br0 := if pbr <? xsz + vm then xsz + vm else pbr).
+  set (br1 := rndup br0 4).
+  set (br2 := if ra >? 1 then rndup br1 ra else br1).
+  assert (Hbr0 : 0 <= br0 <= pbr + xsz + vm) by (unfold br0; destruct (pbr <? xsz + vm); lia).
+  pose proof (rndup_bounds br0 4 ltac:(lia) ltac:(lia)) as Hbr1. fold br1 in Hbr1.
+  set (nf := fun nr : Z =>
+               {| NC__begin_rec := br2; NC__begin_var := br2; NC__flags := flags; NC__format := h_format h;
+                  NC__h_align := ha; NC__h_minfree := hm; NC__nprocs := np; NC__numrecs := nr;
+                  NC__old := None; NC__r_align := ra; NC__recsize := 0; NC__safe_mode := sm; NC__v_minfree := vm;
+                  NC__vars := {| NC_vararray__ndefined := 0; NC_vararray__value := None |};
+                  NC__xsz := xsz |}).
+  exists 0, (mkS (nf (if z2b (Z.land flags 32768) then 0 else h_numrecs h)) br2 None 0 0 None).
+  split.
+  - unfold NC_begins_c, NC_begins_body, st_NC_begins_init, c_view_nc2, NC_begins_loop1_fuel, NC_begins_loop3_fuel, c_fuel_lt.
+    rewrite !Ev. change (Zlen (@nil var)) with 0.
+    cbn [c_bind]. gb_st. gb_nc. rewrite Hsm. cbn [c_bind]. gb_st. gb_nc.
+    change (0 >? 0) with false. cbn [c_bind]. gb_st. gb_nc. cbn [o_ok negb c_bind]. gb_st. gb_nc.
+    rewrite c_loop_exit; [ | reflexivity | reflexivity ].
+    cbn [c_bind]. gb_st. gb_nc.
+    assert (C2 : in_i64 (xsz + vm) = true) by (apply in_i64_iff; lia).
+    rewrite !C2. cbn [c_chk].
+    match goal with |- context [c_bind (if pbr <? xsz + vm then ?A else ?B) ?K] =>
+      assert (Hs1 : c_bind (if pbr <? xsz + vm then A else B) K =
+                    K (mkS {| NC__begin_rec := br0; NC__begin_var := xsz; NC__flags := flags; NC__format := h_format h;
+                              NC__h_align := ha; NC__h_minfree := hm; NC__nprocs := np; NC__numrecs := h_numrecs h;
+                              NC__old := None; NC__r_align := ra; NC__recsize := 0; NC__safe_mode := sm; NC__v_minfree := vm;
+                              NC__vars := {| NC_vararray__ndefined := 0; NC_vararray__value := None |};
+                              NC__xsz := xsz |} xsz None 0 0 None)) end.
+    { unfold br0, mkS. destruct (pbr <? xsz + vm); reflexivity. }
+    rewrite Hs1; clear Hs1. unfold mkS. gb_st. gb_nc.
+    rewrite rnd4_quot by lia. fold br1.
+    assert (C3 : in_i64 (br0 + 4) && in_i64 (br0 + 4 - 1) && div_ok i64_min (br0 + 4 - 1) 4 && in_i64 br1 = true).
+    { rewrite div_ok_pos by lia. unfold in_i64. lia. }
+    rewrite C3. cbn [c_chk c_bind]. gb_st. gb_nc.
+    match goal with |- context [c_bind (if ra >? 1 then ?A else ?B) ?K] =>
+      assert (Hs2 : c_bind (if ra >? 1 then A else B) K =
+                    K (mkS {| NC__begin_rec := br2; NC__begin_var := xsz; NC__flags := flags; NC__format := h_format h;
+                              NC__h_align := ha; NC__h_minfree := hm; NC__nprocs := np; NC__numrecs := h_numrecs h;
+                              NC__old := None; NC__r_align := ra; NC__recsize := 0; NC__safe_mode := sm; NC__v_minfree := vm;
+                              NC__vars := {| NC_vararray__ndefined := 0; NC_vararray__value := None |};
+                              NC__xsz := xsz |} xsz None 0 0 None)) end.
+    { unfold br2, mkS. destruct (ra >? 1) eqn:Era; [|reflexivity].
+      rewrite rndq by lia.
+      pose proof (rndup_bounds br1 ra ltac:(lia) ltac:(lia)) as Hr.
+      assert (C4 : in_i64 (br1 + ra) && in_i64 (br1 + ra - 1) && div_ok i64_min (br1 + ra - 1) ra &&
+                   in_i64 (rndup br1 ra) = true).
+      { rewrite div_ok_pos by lia. unfold in_i64. lia. }
+      rewrite C4. reflexivity. }
+    rewrite Hs2; clear Hs2. unfold mkS. gb_st. gb_nc. cbn [o_ok negb r_isnull c_bind]. gb_st. gb_nc.
+    cbn [o_ok negb r_isnull c_bind]. gb_st. gb_nc. cbn [o_ok negb r_isnull c_bind]. gb_st. gb_nc.
+    rewrite c_loop_exit; [ | reflexivity | reflexivity ].
+    cbn [c_bind r_isnull negb]. gb_st. gb_nc. cbn [c_bind r_isnull negb]. gb_st. gb_nc.
+    unfold nf, mkS. destruct (z2b (Z.land flags 32768)); reflexivity.
+  - unfold begins. rewrite Ev. cbn [map filter begins_fixed begins_rec rev merge_opts find_index last_opt].
+    fold xsz. fold br0. fold br1. fold br2.
+    split; [reflexivity|]. split; reflexivity.
+Qed.
+
+(* the two cases together *)
+Theorem gen_begins_eq : forall h hm vm ha ra pbr flags sm np,
+  (z2b sm && (np >? 1)) = false -> begins_guards h hm vm ha ra pbr ->
+  exists rc s', NC_begins_c (c_view_nc2 h hm vm ha ra pbr flags sm np) (hdr_len h) = FValS rc s' /\
+    match begins h hm vm ha ra None pbr with
+    | None => rc = NC_EVARSIZE
+    | Some lay => rc = NC_NOERR /\ layout_of_state s' = lay /\
+                  NC__numrecs (NC_begins__P_ncp s') = (if z2b (Z.land flags 32768) then 0 else h_numrecs h)
+    end.
+Proof.
+  intros h hm vm ha ra pbr flags sm np Hsm Hg.
+  destruct (h_vars h) as [|v0 vr] eqn:Ev.
+  - apply gen_begins_eq_new_novars; assumption.
+  - apply gen_begins_eq_new; [rewrite Ev; discriminate | assumption | assumption].
+Qed.
+
+(* the guards are satisfiable *)
+Example begins_guards_ex :
+  begins_guards (mkhdr 2 0 exb_dims [] [exb_var 97 [1; 2] 3; exb_var 98 [0; 1] 5; exb_var 99 [2] 1; exb_var 100 [0; 2] 6])
+                0 0 512 4 0.
+Proof.
+  unfold begins_guards.
+  split; [vm_compute; discriminate|]. split; [vm_compute; discriminate|]. split; [vm_compute; discriminate|].
+  split; [vm_compute; discriminate|]. split; [vm_compute; discriminate|]. split; [vm_compute; discriminate|].
+  split; [vm_compute; discriminate|].
+  split; [|vm_compute; discriminate].
+  constructor; [split; [vm_compute; discriminate | vm_compute; reflexivity]|].
+  constructor; [split; [vm_compute; discriminate | vm_compute; reflexivity]|].
+  constructor; [split; [vm_compute; discriminate | vm_compute; reflexivity]|].
+  constructor; [split; [vm_compute; discriminate | vm_compute; reflexivity]|].
+  constructor.
+Qed.
+
+(* the whole generated function also RUNS: concrete headers of every shape class (vm_compute) *)
 Definition begins_agree (h : hdr) (hm vm ha ra pbr : Z) : bool :=
   match NC_begins_c (c_view_nc h hm vm ha ra pbr 32768) (hdr_len h), begins h hm vm ha ra None pbr with
   | FValS rc s, Some lay =>
@@ -503,9 +1149,6 @@ Definition begins_agree (h : hdr) (hm vm ha ra pbr : Z) : bool :=
   | _, _ => false
   end.
 
-Definition exb_dims : list dim := [mkdim [116] 0; mkdim [120] 10; mkdim [121] 7; mkdim [122] 536870912].
-Definition exb_var (nm : Z) (ids : list Z) (t : Z) : var := mkvar [nm] ids [] t 0 false.
-
 Example gen_begins_runs :
   (* fixed, record, fixed, record; one record variable; no variable; scalar; CDF-1 offset overflow *)
   begins_agree (mkhdr 2 0 exb_dims [] [exb_var 97 [1; 2] 3; exb_var 98 [0; 1] 5; exb_var 99 [2] 1; exb_var 100 [0; 2] 6]) 0 0 512 4 0 = true /\
@@ -516,6 +1159,7 @@ Example gen_begins_runs :
   begins (mkhdr 1 0 exb_dims [] [exb_var 97 [3] 5; exb_var 98 [3] 5; exb_var 99 [1] 4]) 0 0 4 4 None 0 = None.
 Proof. repeat split; vm_compute; reflexivity. Qed.
 
+Print Assumptions gen_begins_eq.
 Print Assumptions gen_begins_fixed_eq.
 Print Assumptions gen_begins_rec_eq.
 Print Assumptions gen_begins_runs.
